@@ -496,10 +496,35 @@ def shared_settings_part(ctx, st):
     return n
 
 
+def concurrent_sessions_case(seed):
+    from props import c10
+    out = []
+    for sig, what in c10.session_threads_case(seed):
+        out.append((sig.replace("c10:", "c17:concurrent:"), what))
+    return out
+
+
+def concurrent_sessions_part(ctx, st):
+    """2-3 REAL KmipSession threads on one engine, ONE shared auth-settings object, a directory that answers slowly so that
+    the identity establishment of the sessions overlaps (the workloads of the C10 check): every request reaches request
+    processing under the identity established for ITS session - never evaluated under what another session's
+    authentication left in shared state."""
+    import multiprocessing
+    n = 40 if ctx.tier == "quick" else 800
+    seeds = [ctx.seed * 7919 + 3000 + i for i in range(n)]
+    with multiprocessing.get_context("fork").Pool(6) as pool:
+        res = pool.map(concurrent_sessions_case, seeds)
+    for sd, fails in zip(seeds, res):
+        for sig, what in fails[:2]:
+            ctx.report(sig, what, {"kind": "concurrent-sessions", "seed": sd})
+    st["concurrent_session_workloads"] = n
+    return n
+
+
 def run(ctx):
     cfgs = corpus_cfgs() + configurations(ctx.seed, ctx.tier)
     st, divs = execute(ctx, cfgs)
-    nshared = shared_settings_part(ctx, st)
+    nshared = shared_settings_part(ctx, st) + concurrent_sessions_part(ctx, st)
     ctx.coverage.update({
         "sessions_on_one_shared_settings_object": nshared,
         "shared_settings_objects_modified_by_sessions": st.get("shared_settings_modified", 0),
@@ -545,6 +570,12 @@ def replay(ctx, rep):
             return not bad
         finally:
             rig.close()
+    if r.get("kind") == "concurrent-sessions":
+        bad = 0
+        for _ in range(10):
+            bad += 1 if concurrent_sessions_case(r["seed"]) else 0
+        print("  runs (of 10) in which a request was processed under another session's identity: %d" % bad)
+        return bad == 0
     if r.get("kind") == "shared-settings":
         class _C(object):
             def __init__(self):
